@@ -232,6 +232,7 @@ class Coordinator:
         self.epoch = 0
         self.round = 0
         self.done_at: int | None = None
+        self.clean: set[str] = set()  # volatile: lost in a crash, and everybody is asked again
 
     def start(self) -> None:
         _codecs(self.ctx, self.request_bytes, "request")
@@ -241,8 +242,11 @@ class Coordinator:
         self.tick(self.epoch)
 
     def pending(self) -> list[gw.Cosigner]:
+        # a cosigner has answered when an answer of its own, made from the request as sent, has been merged: one made
+        # from a request altered in transit may be acceptable and still sign fewer inputs than it was asked for
+        # (thorough tier, run 33187: a derivation index flipped on the way out and flipped back on the way in)
         signed = new_signers(self.request, self.current)
-        return [c for c in self.w.asked if c.fingerprint not in signed]
+        return [c for c in self.w.asked if c.fingerprint not in signed or c.name not in self.clean]
 
     def tick(self, epoch: int) -> None:
         if not self.up or epoch != self.epoch or self.done_at is not None:
@@ -270,6 +274,8 @@ class Coordinator:
             return
         if msg.tainted:
             self.ctx.probe("altered-answer-accepted")
+        else:
+            self.clean.add(src)
         self.current = merged
         if not msg.tainted:
             _codecs(self.ctx, msg.data, "answer")
@@ -289,6 +295,7 @@ class Coordinator:
         self.epoch += 1
         self.ctx.fault("coordinator-crash", actor=self.name)
         self.disk.crash()
+        self.clean = set()
 
     def restart(self) -> None:
         if self.up:
